@@ -546,7 +546,7 @@ Init ==
           /\ codes = ("k1" :> "r1") /\ redeemed = {} /\ viol = {}
           /\ devs = ("d1" :> [client |-> "cx", scopes |-> {"openid"}, uc |-> "uc-d1", status |-> "done", sub |-> "u1", expired |-> FALSE])
                   @@ ("d2" :> [client |-> "cp", scopes |-> {"openid"}, uc |-> "uc-d2", status |-> "pending", sub |-> "none", expired |-> FALSE])
-          /\ toks = SeedToks /\ rts = SeedRts /\ idts = SeedIdts
+          /\ toks = SeedToks /\ rts = SeedRts /\ idts = SeedIdts /\ gone = {}
           /\ cnt = [r |-> 1, k |-> 1, a |-> 2, f |-> 1, i |-> 2, d |-> 2, n |-> 0]
      ELSE Init0
   /\ cfg \in [router : Routers,
